@@ -27,7 +27,9 @@ Local Open Scope Z_scope.
 Inductive op :=
 | Send | SetPools (ps : list (Z * pstate)) | Tick (d : Z) | Resp (a : nat) (k : rkind) | Fire (k : nat) | Run (k : nat)
 | NextPage (pl : list Z) | AddCb | Result
-| KsReport (c : nat) (h : Z) (err : bool).   (* pool h reports the outcome of its internal USE to propagation c *)
+| KsReport (c : nat) (h : Z) (err : bool)
+| Shutdown                  (* Session.shutdown() has set is_shutdown *)
+| RunRefresh (k : nat).     (* the executor runs a queued refresh_schema_and_set_result *)   (* pool h reports the outcome of its internal USE to propagation c *)
 
 Record config := mkConfig { c_plan : list Z; c_timeout : option Z; c_specs : list Z; c_pools : list (Z * pstate); c_now : Z }.
 
@@ -57,7 +59,8 @@ Fixpoint remove_nth {A} (k : nat) (l : list A) : list A :=
 Definition live (t : timer) : bool := negb (cancelled t) && negb (fired t).
 Definition cancel (t : timer) : timer := mkTimer (tk t) (due t) true (fired t).
 Definition mark_fired (t : timer) : timer := mkTimer (tk t) (due t) (cancelled t) true.
-Definition close (a : attempt) : attempt := mkAtt (ahost a) false.
+Definition close (a : attempt) : attempt := mkAtt (ahost a) false (astale a).
+Definition make_stale (a : attempt) : attempt := mkAtt (ahost a) (aopen a) true.
 
 Definition final_set (s : state) : bool := is_some (fres s) || is_some (fexc s).
 
@@ -107,6 +110,12 @@ Definition set_final_result (v : Z) (s : state) : state :=
   if g && final_set s then s
   else set_event true (set_pairs (run_cbs v (pairs s)) (set_fres (Some v) s)).
 
+(* _set_final_result(rows, page_info=...): the paging state moves on only together with the page that is delivered *)
+Definition set_final_rows (v : Z) (more : bool) (s : state) : state :=
+  let s := cancel_timer s in
+  if g && final_set s then s
+  else set_event true (set_pairs (run_cbs v (pairs s)) (set_fres (Some v) (set_paging more s))).
+
 Definition set_final_exception (e : Z) (s : state) : state :=
   let s := cancel_timer s in
   if g && final_set s then s
@@ -121,7 +130,7 @@ Definition query (h : Z) (s : state) : state * option nat :=
   | PNoConn => (set_cur_host (Some h) s, None)
   | PSendFail => (set_cur_req None (set_cur_conn (Some h) (set_cur_host (Some h) s)), None)
   | POk => (set_cur_req (Some (length (attempts s)))
-              (set_attempts (attempts s ++ [mkAtt h true]) (set_cur_conn (Some h) (set_cur_host (Some h) s))),
+              (set_attempts (attempts s ++ [mkAtt h true false]) (set_cur_conn (Some h) (set_cur_host (Some h) s))),
             Some (length (attempts s)))
   end.
 
@@ -177,10 +186,17 @@ Definition on_spec (s : state) : state :=
        end.
 
 (* ---------------------------------------------------------------- responses *)
-(* _retry(reuse, cl, host): if self._final_exception: return; self.session.submit(self._retry_task, reuse, host) *)
+(* _retry(reuse, cl, host): if self._final_exception: return; self._submit(self._retry_task, reuse, host)
+   _submit: a shut-down session refuses the task (Session.submit returns None): _set_final_exception(ConnectionShutdown) *)
 Definition retry (reuse : bool) (h : Z) (s : state) : state :=
   let s := set_retries (retries s + 1) s in
-  if is_some (fexc s) then s else set_queue (queue s ++ [(reuse, h)]) s.
+  if is_some (fexc s) then s
+  else if shut s then set_final_exception 5 s
+  else set_queue (queue s ++ [(reuse, h)]) s.
+
+(* SCHEMA_CHANGE answer: session.submit(refresh_schema_and_set_result, ...); refused by a shut-down session: _set_final_result(None) *)
+Definition start_refresh (s : state) : state :=
+  if shut s then set_final_result 1 s else set_refreshes (S (refreshes s)) s.
 
 (* Session._set_keyspace_for_all_pools(keyspace, self._set_keyspace_completed): pools that are shut down report at once
    (no error); if nothing is left to wait for, _set_keyspace_completed({}) -> _set_final_result(None) *)
@@ -219,13 +235,14 @@ Definition ks_report (c : nat) (h : Z) (err : bool) (s : state) : state :=
 
 Definition set_result (a : nat) (h : Z) (k : rkind) (s : state) : state :=
   match k with
-  | RRows more => set_final_result (10 + Z.of_nat a) (set_paging more s)
+  | RRows more => set_final_rows (10 + Z.of_nat a) more s
   | RVoid => set_final_result 1 s
   | RRetry DRetry => retry true h s
   | RRetry DRetryNext => retry false h s
   | RRetry DRethrow => set_final_exception (10 + Z.of_nat a) s
   | RRetry DIgnore => set_final_result 1 s
   | ROther => set_final_exception (10 + Z.of_nat a) s
+  | RSchema => start_refresh s
   | RSetKs => start_chain s
   | RJunk => set_final_exception (10 + Z.of_nat a) (cancel_timer s)
   end.
@@ -239,10 +256,11 @@ Definition retry_task (reuse : bool) (h : Z) (s : state) : state :=
        else send_request true s.
 
 (* start_fetching_next_page (after the QueryExhausted test) *)
-(* _make_query_plan(); _event.clear(); _final_result = _NOT_SET; _final_exception = None  (+ ghosts of the new page fetch) *)
+(* _make_query_plan(); _page_no += 1 (every request sent so far becomes stale); _event.clear(); _final_result = _NOT_SET;
+   _final_exception = None  (+ ghosts of the new page fetch) *)
 Definition page_reset (pl : list Z) (s : state) : state :=
   set_tfired false (set_pstart (now s) (set_pairs (map (fun _ => mkPair [] []) (pairs s))
-    (set_fexc None (set_fres None (set_event false (set_plan pl s)))))).
+    (set_fexc None (set_fres None (set_event false (set_attempts (map make_stale (attempts s)) (set_plan pl s))))))).
 (* pf: _cancel_timer(); _timer = None; _start_time = time.time() *)
 Definition page_timer_reset (s : state) : state :=
   if pf then set_start (now s) (set_cur_timer None (cancel_timer s)) else s.
@@ -266,7 +284,12 @@ Definition step (s : state) (o : op) : state :=
   | Tick d => set_now (now s + Z.max 0 d) s
   | Resp a k =>
     match nth_error (attempts s) a with
-    | Some at_ => if aopen at_ then set_result a (ahost at_) k (set_attempts (upd_nth a close (attempts s)) s) else s
+    | Some at_ =>
+      if aopen at_ then
+        let s1 := set_attempts (upd_nth a close (attempts s)) s in
+        if astale at_ then s1      (* _set_result_of_page: answer of an execution of an earlier page fetch, dropped *)
+        else set_result a (ahost at_) k s1
+      else s
     | None => s
     end
   | Fire k =>
@@ -287,12 +310,18 @@ Definition step (s : state) (o : op) : state :=
   | AddCb => add_cb s
   | Result => match result_call s with Some r => set_results (results s ++ [r]) s | None => s end
   | KsReport c h err => ks_report c h err s
+  | Shutdown => set_shut true s
+  | RunRefresh k =>      (* refresh_schema_and_set_result: ... finally: response_future._set_final_result(None) *)
+    match refreshes s with
+    | O => s
+    | S n => if (k <=? n)%nat then set_final_result 1 (set_refreshes n s) else s
+    end
   end.
 
 (* __init__ (ends with _start_timer()) *)
 Definition init (c : config) : state :=
   start_timer (mkState (c_plan c) [] None None None 0 [] None (c_specs c) None None false [] false
-                       (c_now c) (c_now c) (c_timeout c) (c_now c) [] (c_pools c) false false [] [] 0).
+                       (c_now c) (c_now c) (c_timeout c) (c_now c) [] (c_pools c) false false [] [] 0 false 0).
 
 Definition run (s : state) (h : list op) : state := fold_left step h s.
 
@@ -311,7 +340,7 @@ Definition lastz (l : list Z) : Z := last l 0.
 
 Definition obs_timer (t : timer) : list Z :=
   [match tk t with TSpec => 0 | TTimeout n => 1 + Z.of_nat n end; due t; bz (cancelled t); bz (fired t)].
-Definition obs_att (a : attempt) : list Z := [ahost a; bz (aopen a)].
+Definition obs_att (a : attempt) : list Z := [ahost a; bz (aopen a); bz (astale a)].
 Definition obs_pair (p : pair) : list Z :=
   [Z.of_nat (length (cbs p)); Z.of_nat (length (ebs p)); lastz (cbs p); lastz (ebs p)].
 
@@ -323,7 +352,7 @@ Definition obs (s : state) : list Z :=
   ++ [om (cur_host s); om (cur_conn s); onat (cur_req s); bz (paging s); Z.of_nat (length (pairs s))]
   ++ flat_map obs_pair (pairs s)
   ++ [Z.of_nat (length (results s)); fst (last (results s) (-1, 0)); snd (last (results s) (-1, 0))]
-  ++ [swallowed s; Z.of_nat (length (chains s))]
+  ++ [swallowed s; bz (shut s); Z.of_nat (refreshes s); Z.of_nat (length (chains s))]
   ++ flat_map (fun c => [Z.of_nat (length (fst c)); bz (snd c)] ++ fst c) (chains s).
 
 Fixpoint zlist_eqb (a b : list Z) : bool :=
@@ -358,7 +387,15 @@ Definition all_answered (s : state) : bool :=
   negb (match attempts s with [] => true | _ => false end)
   && forallb (fun a => negb (aopen a)) (attempts s)
   && match queue s with [] => true | _ => false end
-  && forallb (fun c => match fst c with [] => true | _ => false end) (chains s).
+  && forallb (fun c => match fst c with [] => true | _ => false end) (chains s)
+  && (refreshes s =? 0)%nat.
+(* the same for the requests of the CURRENT page fetch only (what the invariant is about; all_answered implies it) *)
+Definition cur_answered (s : state) : bool :=
+  negb (match attempts s with [] => true | _ => false end)
+  && forallb (fun a => negb (aopen a) || astale a) (attempts s)
+  && match queue s with [] => true | _ => false end
+  && forallb (fun c => match fst c with [] => true | _ => false end) (chains s)
+  && (refreshes s =? 0)%nat.
 Definition delivered (s : state) : bool :=
   event s && final_set s && forallb (fun p => (length (cbs p) + length (ebs p) =? 1)%nat) (pairs s).
 Definition c14_ok (s : state) : bool :=
